@@ -79,8 +79,8 @@ Lemma sig_tuple l : sig_from_py (PTuple l) =
   match tuple_sig l with Ok s => Ok (40 :: s ++ [41]) | Err e => Err e end.
 Proof. reflexivity. Qed.
 
-Definition dict_last (same : bool) :=
-  fix last (k v : pyval) (sk sv : res str) (r : list (pyval * pyval)) : res str :=
+Definition dict_last (same : bool) (sv : res str) :=
+  fix last (sk : res str) (r : list (pyval * pyval)) : res str :=
     match r with
     | [] =>
         match sk with
@@ -89,12 +89,13 @@ Definition dict_last (same : bool) :=
             if same then match sv with Ok vs => Ok (97 :: 123 :: ks ++ vs ++ [125]) | Err e => Err e end
             else Ok (97 :: 123 :: ks ++ [118; 125])
         end
-    | (k', v') :: r' => last k' v' (sig_from_py k') (sig_from_py v') r'
+    | (k', _) :: r' => last (sig_from_py k') r'
     end.
 
+(* the key type from the last key iterated, the value type from the first value *)
 Lemma sig_dict k0 v0 r : sig_from_py (PDict ((k0, v0) :: r)) =
   dict_last (forallb (fun kv => subclass (class_of (snd kv)) (class_of v0)) r)
-            k0 v0 (sig_from_py k0) (sig_from_py v0) r.
+            (sig_from_py v0) (sig_from_py k0) r.
 Proof. reflexivity. Qed.
 
 Theorem sig_from_py_complete : forall v, wrappers_ok v = true ->
@@ -125,28 +126,28 @@ Proof.
   - destruct l as [|[k0 v0] r]; [inversion H; exists (TArray (TDictEntry TString TVariant)); reflexivity|].
     rewrite sig_dict in H. cbn [wrappers_ok] in Hw.
     set (same := forallb _ r) in H. clearbody same.
-    assert (G : forall k v sk sv, sk = sig_from_py k -> sv = sig_from_py v ->
-                wrappers_ok k = true -> wrappers_ok v = true ->
-                (forall s, sig_from_py k = Ok s -> exists t, s = show t) ->
-                (forall s, sig_from_py v = Ok s -> exists t, s = show t) ->
+    set (sv := sig_from_py v0) in H.
+    inversion IH as [|? ? [Pk0 Pv0] IHr]; subst. cbn [fst snd forallb] in *.
+    apply andb_true_iff in Hw as [Hw1 Hw2]. apply andb_true_iff in Hw1 as [Hwk Hwv].
+    assert (Pv : forall vs, sv = Ok vs -> exists t, vs = show t) by (intros vs E; apply (Pv0 Hwv vs E)).
+    clearbody sv.
+    assert (G : forall sk, (forall ks, sk = Ok ks -> exists t, ks = show t) ->
                 Forall (fun kv => (wrappers_ok (fst kv) = true -> forall s, sig_from_py (fst kv) = Ok s -> exists t, s = show t) /\
                                   (wrappers_ok (snd kv) = true -> forall s, sig_from_py (snd kv) = Ok s -> exists t, s = show t)) r ->
                 forallb (fun kv => wrappers_ok (fst kv) && wrappers_ok (snd kv)) r = true ->
-                dict_last same k v sk sv r = Ok s -> exists t, s = show t).
-    { clear. induction r as [|[k' v'] r IHr]; intros k v sk sv -> -> Hk Hv Pk Pv Hall Hw H.
-      - cbn [dict_last] in H. destruct (sig_from_py k) as [ks|] eqn:Ek; [|discriminate].
+                dict_last same sv sk r = Ok s -> exists t, s = show t).
+    { clear -Pv. induction r as [|[k' v'] r IHr]; intros sk Pk Hall Hw H.
+      - cbn [dict_last] in H. destruct sk as [ks|]; [|discriminate].
         destruct (Pk _ eq_refl) as [tk ->].
         destruct same.
-        + destruct (sig_from_py v) as [vs|] eqn:Ev; [|discriminate]. destruct (Pv _ eq_refl) as [tv ->].
+        + destruct sv as [vs|]; [|discriminate]. destruct (Pv _ eq_refl) as [tv ->].
           inversion H. exists (TArray (TDictEntry tk tv)). reflexivity.
         + inversion H. exists (TArray (TDictEntry tk TVariant)). reflexivity.
-      - cbn [dict_last] in H. fold (dict_last same) in H. inversion Hall; subst. cbn [fst snd] in *.
+      - cbn [dict_last] in H. fold (dict_last same sv) in H. inversion Hall; subst. cbn [fst snd] in *.
         cbn [forallb fst snd] in Hw. apply andb_true_iff in Hw as [Hw1 Hw2]. apply andb_true_iff in Hw1 as [Hwk Hwv].
         destruct H2 as [Pk' Pv'].
-        eapply (IHr k' v' _ _ eq_refl eq_refl Hwk Hwv (Pk' Hwk) (Pv' Hwv) H3 Hw2 H). }
-    inversion IH; subst. cbn [fst snd forallb] in *. apply andb_true_iff in Hw as [Hw1 Hw2].
-    apply andb_true_iff in Hw1 as [Hwk Hwv]. destruct H2 as [Pk Pv].
-    eapply (G k0 v0 _ _ eq_refl eq_refl Hwk Hwv (Pk Hwk) (Pv Hwv) H3 Hw2 H).
+        eapply (IHr (sig_from_py k') (fun ks E => Pk' Hwk ks E) H3 Hw2 H). }
+    eapply (G (sig_from_py k0) (fun ks E => Pk0 Hwk ks E) IHr Hw2 H).
   - discriminate.
   - cbn [sig_from_py] in H. inversion H; subst. cbn [wrappers_ok] in Hw. apply wrap_code_show. exact Hw.
   - discriminate.
